@@ -291,6 +291,10 @@ func (m *Materializer) expr(t *Term, typ types.Type, depth int) string {
 				return fmt.Sprintf("%s(%d)", ts, sv)
 			}
 			return fmt.Sprintf("%s(0x%x)", ts, v)
+		case u.Info()&types.IsFloat != 0 && t.S.K == KBV:
+			b, _ := m.evalBV(t)
+			m.imports["math"] = true
+			return fmt.Sprintf("%s(math.Float64frombits(0x%x))", ts, b)
 		case u.Info()&types.IsFloat != 0:
 			s, err := m.ms.eval(t)
 			if err != nil {
@@ -369,11 +373,11 @@ func (m *Materializer) expr(t *Term, typ types.Type, depth int) string {
 					m.stmts = append(m.stmts, fmt.Sprintf("%s.%s = make(%s)", name, f.Name(), m.typeStr(f.Type())))
 					continue
 				}
-				fv := Select(m.preHeap(fieldKey(et, i), SArray(SRef, sortOf(f.Type()))), rt)
+				fv := objRead(m.c.pre, fieldKey(et, i), sortOf(f.Type()), rt)
 				m.stmts = append(m.stmts, fmt.Sprintf("%s.%s = %s", name, f.Name(), m.expr(fv, f.Type(), depth+1)))
 			}
 		} else if !opaqueStruct(et) {
-			v := Select(m.preHeap(cellKey(et), SArray(SRef, sortOf(et))), rt)
+			v := objRead(m.c.pre, cellKey(et), sortOf(et), rt)
 			m.stmts = append(m.stmts, fmt.Sprintf("*%s = %s", name, m.expr(v, et, depth+1)))
 		}
 		return name
@@ -407,14 +411,14 @@ func (m *Materializer) expr(t *Term, typ types.Type, depth int) string {
 			m.arrays[key] = back
 			total := off + cp
 			m.stmts = append(m.stmts, fmt.Sprintf("%s := make([]%s, %d)", back, m.typeStr(et), total))
-			inner := Select(m.preHeap(elemKey(et), SArray(SRef, SArray(SInt, sortOf(et)))), BVLit(arr, 64))
+			inners := elemInners(m.c.pre, elemKey(et), sortOf(et), BVLit(arr, 64))
 			// materialise the visible window (and the slack up to cap when small)
 			hi := off + ln
 			if cp-ln <= 8 {
 				hi = off + cp
 			}
 			for i := off; i < hi; i++ {
-				m.stmts = append(m.stmts, fmt.Sprintf("%s[%d] = %s", back, i, m.expr(Select(inner, BVLit(i, 64)), et, depth+1)))
+				m.stmts = append(m.stmts, fmt.Sprintf("%s[%d] = %s", back, i, m.expr(elemAt(sortOf(et), inners, BVLit(i, 64)), et, depth+1)))
 			}
 		}
 		return fmt.Sprintf("%s(%s[%d:%d:%d])", ts, back, off, off+ln, off+cp)
